@@ -156,18 +156,17 @@ theorem stable_handleBeginUnstake (s : State) (a signer : Addr) : Stable s (hand
       · exact Stable.refl s
       · exact Stable.of_vals rfl
 
-theorem stable_handleUnjail {s : State} (hi : Inv s) (h t now : Int) (a signer : Addr) :
-    Stable s (handleUnjail s h t now a signer).1 := by
-  by_cases hok : (handleUnjail s h t now a signer).2 = .ok
-  · obtain ⟨v, si, hv, hsi, _, hmin, hj, h6, h7⟩ := handleUnjail_ok_requires hok
+theorem stable_handleUnjail {s : State} (hi : Inv s) (h t : Int) (a signer : Addr) :
+    Stable s (handleUnjail s h t a signer).1 := by
+  by_cases hok : (handleUnjail s h t a signer).2 = .ok
+  · obtain ⟨v, si, hv, hsi, _, hmin, hj, h6⟩ := handleUnjail_ok_requires hok
     have hka := hi.keys a v hv
     unfold handleUnjail
     simp only [hv]
     have h1 : ¬ (signerOk v.addr v.output signer = false) := by simp_all
     have h2 : ¬ (v.tokens < s.params.minStake) := by omega
     have h3 : ¬ (v.jailed = false) := by simp [hj]
-    simp only [if_neg h1, if_neg h2, if_neg h3, hsi, if_neg (show ¬ si.jailedUntil > now by omega),
-      if_neg (show ¬ t < si.jailedUntil by omega)]
+    simp only [if_neg h1, if_neg h2, if_neg h3, hsi, if_neg (show ¬ t < si.jailedUntil by omega)]
     unfold unjailValidator
     simp only [hka, hv, if_neg h3]
     intro b w hw
@@ -262,7 +261,7 @@ theorem stable_step {s : State} (hi : Inv s) (op : Op) (hne : ∀ h t, op ≠ .e
   cases op with
   | stake h m signer => exact stable_handleStake hi h m signer
   | beginUnstake a signer => exact stable_handleBeginUnstake s a signer
-  | unjail h t now a signer => exact stable_handleUnjail hi h t now a signer
+  | unjail h t a signer => exact stable_handleUnjail hi h t a signer
   | burn a amount => exact stable_simpleSlash hi a amount
   | beginBlock h t votes evs => exact stable_beginBlock hi h t votes evs
   | endBlock h t => exact absurd rfl (hne h t)
